@@ -152,6 +152,8 @@ type GenesisDoc struct {
 	Auth     json.RawMessage            `json:"auth,omitempty"`
 	Balances []GenesisBalance           `json:"balances,omitempty"` // funded via faucet mint at genesis
 	Extra    map[string]json.RawMessage `json:"extra,omitempty"`
+	// Unvalidated: hand-written replay files may carry a genesis that is not validated first
+	Unvalidated bool `json:"unvalidated,omitempty"`
 }
 
 type GenesisBalance struct {
